@@ -62,7 +62,9 @@ def generate(seed, tier="quick"):
                     items.insert(xr.randint(0, len(items)), e)
                 s["arg"] = "[" + ", ".join(items) + "]"
     driver = "plugin" if sub(seed, "driver").random() < 0.3 else "inline"
-    return {"program": prog, "driver": driver, "asserts": asserts, "fmt": draw_fmt(sub(seed, "fmt")), "max_orders": 6 if tier == "quick" else 24}
+    # the project hides updates unless they are asked for (skip-snapshot-updates-for-now): every session of these histories names its categories
+    skip_updates = driver == "plugin" and sub(seed, "skip-updates").random() < 0.35
+    return {"program": prog, "driver": driver, "asserts": asserts, "skip_updates": skip_updates, "fmt": draw_fmt(sub(seed, "fmt")), "max_orders": 6 if tier == "quick" else 24}
 
 
 def trees(files):
@@ -82,7 +84,9 @@ def execute(case, ctx):
     out = {"violations": [], "discards": {}, "abstract": []}
     files, orders = P.render(prog, drivers.simlib_text())
     if driver == "plugin":
-        files["pyproject.toml"] = sim.pyproject_for(fmt)
+        files["pyproject.toml"] = sim.pyproject_for(fmt, tool={"skip-snapshot-updates-for-now": True} if case.get("skip_updates") else None)
+        if case.get("skip_updates"):
+            ctx.count("probe_project_hides_updates")
     s0 = sim.to_bytes(files)
 
     def flags(cats):
@@ -93,11 +97,16 @@ def execute(case, ctx):
 
     # pending set from a probe session that approves nothing (programs with aborting events: from a session that approves everything on a scratch
     # copy, because a failing assert hides what follows it from a session that approves nothing)
-    _, r0 = sim.run_session(ctx, driver, s0, {"flags": flags(CATS if case.get("asserts") else []), "fmt": fmt})
+    _, r0 = sim.run_session(ctx, driver, s0, {"flags": flags(CATS if case.get("asserts") or case.get("skip_updates") else []), "fmt": fmt})
     if not ok(r0):
         out["discards"]["probe-session-did-not-complete(C18)"] = 1
         return out
     pend = sorted(r0.get("categories") or []) if driver == "inline" else drivers.report_categories(r0.get("out", ""))
+    if case.get("skip_updates") and "update" not in pend:
+        # what is pending must not be taken from one kind of session only: ask a session that names nothing but update
+        _, ru = sim.run_session(ctx, driver, s0, {"flags": flags(["update"]), "fmt": fmt})
+        if ok(ru) and "update" in drivers.report_categories(ru.get("out", "")):
+            pend = sorted(set(pend) | {"update"})
     if len(pend) < 2:
         out["discards"]["fewer-than-two-categories-pending"] = 1
         return out
@@ -149,5 +158,7 @@ def shrink(case):
         yield dict(case, program=p)
     if case["fmt"]["kind"] != "black":
         yield dict(case, fmt={"kind": "black"})
+    if case.get("skip_updates"):
+        yield dict(case, skip_updates=False)
     if case["driver"] == "plugin":
-        yield dict(case, driver="inline")
+        yield dict(case, driver="inline", skip_updates=False)
